@@ -8,7 +8,9 @@
                     by induction on the axes (1-D step = SumTools.sumZ_affine_single).
             Part C: reshape between  b ++ c ++ r  and  prod b :: prod c :: r.
             Part D: evaluation of the three model functions, closed forms, adjointness.
-            Part E: instances multi_channel = True / False, explicit D = 2. *)
+            Part E: the two calling conventions multi_channel = True / False (any D).
+            Part F: explicit scalar forms for D = 1 (multi_channel = False), D = 2, D = 3.
+            Part G: rejection for any D ('valid' mode, filter longer than the data on some axis). *)
 From Coq Require Import ZArith List Lia Bool Ring.
 From SV Require Import lib.Scalar lib.BigSum lib.LoopIR lib.NdArray model.Rearrange model.Block model.Linop model.Conv
   proofs.SumTools proofs.ConvTools proofs.ConvReject proofs.Conv1D.
